@@ -6,6 +6,7 @@ import vflib
 from checks.common import run_components, finish_standard, replay_standard
 
 COMPONENTS = [
+    {'name': 'c05', 'oracle': False, 'what': 'lossy stills (VP8 + every ALPH variant, simple and VP8X containers) through read_image vs libwebp no-fancy'},
     {'name': 'c13', 'oracle': True, 'what': 'fill_rgb / fill_rgba planes', 'normalise': lambda s: s.replace(' SPECDIFF', '')},
     {'name': 'alpha', 'oracle': True, 'what': 'alpha application loop', 'normalise': lambda s: s.replace(' SPECDIFF', '')},
 ]
@@ -23,4 +24,4 @@ def check(run):
 
 
 def replay(run, path):
-    return replay_standard(run, path, 'alpha')
+    return replay_standard(run, path, 'c05')
